@@ -176,6 +176,8 @@ func init() {
 			return m.deepEqual(a[0], a[1], 0, map[[2]*Object]bool{}), true
 		},
 		"vMapOrderNondet": func(m *Machine, f *Frame, a []value) (value, bool) {
+			old := m.mapOrderNondet
+			m.undoLog(func() { m.mapOrderNondet = old })
 			m.mapOrderNondet = a[0].(*Term).k != 0
 			return nil, true
 		},
@@ -220,6 +222,13 @@ func init() {
 				}
 			}
 			return m.tb.False, true
+		},
+		"vNativeTrue": func(m *Machine, f *Frame, a []value) (value, bool) {
+			// a condition only the native replay can evaluate (e.g. byte identity of real protobuf output)
+			return m.tb.True, true
+		},
+		"vCodecUnrecognised": func(m *Machine, f *Frame, a []value) (value, bool) {
+			return m.tb.Const(64, uint64(m.codecUnrecognised)), true
 		},
 		"vHavocBytes": func(m *Machine, f *Frame, a []value) (value, bool) {
 			// overwrite every byte of the slice with fresh symbolic bytes
@@ -524,6 +533,9 @@ func (m *Machine) reachObj(o *Object, seen map[*Object]bool, seenM map[*MapObj]b
 		return
 	}
 	seen[o] = true
+	if o.aliasOf != nil {
+		m.reachObj(o.aliasOf, seen, seenM)
+	}
 	for _, c := range o.cells {
 		switch c.(type) {
 		case *Term, Str, nil, Float:
